@@ -170,4 +170,18 @@ META = {
         ),
         "technique": "controlled-schedule runtime monitoring: cooperative deterministic scheduler with virtual time (systematic bounded deviations + random + PCT) and a history checker for exactly-once ordered delivery",
     },
+    "C06": {
+        "level_text": (
+            "Every (stage, chunk index) failure position - source, mid-graph plugin, multi-output plugin, loader, "
+            "saver of the target, saver of a side output, consumer closing the iterator - in three plugin graphs "
+            "is enumerated; the complete real stack (get_iter, ThreadedMailboxProcessor, mailboxes, worker pool, "
+            "savers) runs under the cooperative deterministic scheduler with random and PCT schedules, eager and "
+            "lazy, with and without a pool, and the single-thread processor and a real-thread stress pass cover "
+            "the same positions. A run is judged by: the caller received the injected exception object itself "
+            "(not a timeout, a wrapper or a normal return), all pipeline threads finished, no deadlock, virtual "
+            "clock still 0. Fault-free runs must finish with the right rows on every schedule."
+        ),
+        "level_note": "trusted: vf/sched/coop.py + shims; termination only as 'no deadlock / no virtual timeout on explored schedules'",
+        "technique": "fault injection at enumerated (stage, chunk) positions under a cooperative deterministic scheduler with virtual time; exception-identity and thread-termination monitors",
+    },
 }
